@@ -50,6 +50,8 @@ pub fn gen_id(r: &mut Rng) -> String {
         1 => "ECU1".into(),
         2 => "APP".into(),
         3 if r.chance(1, 3) => "DLT\u{1}".into(), // the storage-header pattern is a legal id
+        4 if r.chance(1, 3) => "ECU".into(),       // the writer's default ECU id
+        5 if r.chance(1, 4) => "NONE".into(),
         _ => {
             let target = r.range(1, 4) as usize;
             let mut s = String::new();
